@@ -49,6 +49,10 @@ claim("C08", "finite-domain abstract interpretation of the two precedence functi
       "Decides C08.1 (takesPrecedenceOver and enforce equal the documented order/table on every cell of their finite domain), C08.2 (no merge-map entry that aliases an input rule is written through — the F1 defect class, also for key/node/... rules), C08.3 (35 policyAuthorizer methods ask for the level their name says, 15 resources use one rule tree each, 71 delegating methods delegate to the like-named method), C08.4 (authorizer cache key folds ID and ModifyIndex of the compiled receiver). Longest-prefix selection in the radix tree is library behaviour and is not decided.",
       "DESIGN.md section 3 C08")
 
+claim("C09", "registry agreement between filter call-site subject types and the filter's type switch; per-endpoint must-contain-filter check over reply types; frozen per-element-type table of authorizer questions with provenance of the name argument; structural splice/flag rules; edge-cut dominance of identity use by the IsExpired false edge",
+      "Decides C09.1-C09.6: every subject handed to the ACL filter has a case (43 call sites); every RPC with a filterable reply filters it (36 methods, 3 listed up-front-authorised ones); each of 23 per-type filters asks the questions frozen for its element type on a name field of the element (F10 class); 11 in-place splices step the index back and set the removed flag; the filtered flag is never overwritten in a loop (F4 class); identities are used only below the not-expired edge; anonymous masking is in place. Does not decide that nothing readable is dropped for nested structures.",
+      "DESIGN.md section 3 C09")
+
 NA_REASON = {}
 
 checks = []
